@@ -319,22 +319,26 @@ func c07RowChunks(tier string) []SeqChunk {
 		red := func(s string) string { return "\x1b[1;31m" + s + "\x1b[0m" }
 		start := time.Unix(0, 0)
 		mk := map[string]func(wc decor.WC) decor.Decorator{
-			"Name":            func(wc decor.WC) decor.Decorator { return decor.Name("名前x", wc) },
-			"Counters":        func(wc decor.WC) decor.Decorator { return decor.CountersKibiByte("% .1f / % .1f", wc) },
-			"CountersNoUnit":  func(wc decor.WC) decor.Decorator { return decor.CountersNoUnit("%d / %d", wc) },
-			"Percentage":      func(wc decor.WC) decor.Decorator { return decor.Percentage(wc) },
-			"NewPercentage":   func(wc decor.WC) decor.Decorator { return decor.NewPercentage("%.2f", wc) },
-			"Elapsed":         func(wc decor.WC) decor.Decorator { return decor.NewElapsed(decor.ET_STYLE_GO, start, wc) },
-			"EwmaETA":         func(wc decor.WC) decor.Decorator { return decor.EwmaETA(decor.ET_STYLE_MMSS, 30, wc) },
-			"AverageETA":      func(wc decor.WC) decor.Decorator { return decor.NewAverageETA(decor.ET_STYLE_HHMMSS, start, nil, wc) },
-			"EwmaSpeed":       func(wc decor.WC) decor.Decorator { return decor.EwmaSpeed(decor.SizeB1024(0), "% .2f", 30, wc) },
-			"AverageSpeed":    func(wc decor.WC) decor.Decorator { return decor.NewAverageSpeed(decor.SizeB1000(0), "% .1f", start, wc) },
+			"Name":           func(wc decor.WC) decor.Decorator { return decor.Name("名前x", wc) },
+			"Counters":       func(wc decor.WC) decor.Decorator { return decor.CountersKibiByte("% .1f / % .1f", wc) },
+			"CountersNoUnit": func(wc decor.WC) decor.Decorator { return decor.CountersNoUnit("%d / %d", wc) },
+			"Percentage":     func(wc decor.WC) decor.Decorator { return decor.Percentage(wc) },
+			"NewPercentage":  func(wc decor.WC) decor.Decorator { return decor.NewPercentage("%.2f", wc) },
+			"Elapsed":        func(wc decor.WC) decor.Decorator { return decor.NewElapsed(decor.ET_STYLE_GO, start, wc) },
+			"EwmaETA":        func(wc decor.WC) decor.Decorator { return decor.EwmaETA(decor.ET_STYLE_MMSS, 30, wc) },
+			"AverageETA":     func(wc decor.WC) decor.Decorator { return decor.NewAverageETA(decor.ET_STYLE_HHMMSS, start, nil, wc) },
+			"EwmaSpeed":      func(wc decor.WC) decor.Decorator { return decor.EwmaSpeed(decor.SizeB1024(0), "% .2f", 30, wc) },
+			"AverageSpeed": func(wc decor.WC) decor.Decorator {
+				return decor.NewAverageSpeed(decor.SizeB1000(0), "% .1f", start, wc)
+			},
 			"Spinner":         func(wc decor.WC) decor.Decorator { return decor.Spinner(nil, wc) },
 			"SpinnerWide":     func(wc decor.WC) decor.Decorator { return decor.Spinner([]string{"界", "x"}, wc) },
 			"TotalKiloByte":   func(wc decor.WC) decor.Decorator { return decor.TotalKiloByte("% .1f", wc) },
 			"CurrentNoUnit":   func(wc decor.WC) decor.Decorator { return decor.CurrentNoUnit("%d", wc) },
 			"InvertedCurrent": func(wc decor.WC) decor.Decorator { return decor.InvertedCurrentKibiByte("% d", wc) },
-			"Any":             func(wc decor.WC) decor.Decorator { return decor.Any(func(decor.Statistics) string { return "éé" }, wc) },
+			"Any": func(wc decor.WC) decor.Decorator {
+				return decor.Any(func(decor.Statistics) string { return "éé" }, wc)
+			},
 		}
 		names := []string{"Name", "Counters", "CountersNoUnit", "Percentage", "NewPercentage", "Elapsed", "EwmaETA", "AverageETA", "EwmaSpeed", "AverageSpeed", "Spinner", "SpinnerWide", "TotalKiloByte", "CurrentNoUnit", "InvertedCurrent", "Any"}
 		stats := []decor.Statistics{{Total: 0, Current: 0}, {Total: 1 << 20, Current: 1 << 10}, {Total: 100, Current: 100, Completed: true}, {Total: 100, Current: 7, Aborted: true}}
